@@ -115,6 +115,9 @@ def compare_records(spec, a, b, user_steps, ignore=("eps",)):
     diffs = []
     for n in a:
         ra, rb = a[n], b[n]
+        for r_ in (ra, rb):
+            for d in r_.get("payload_corrupt", [])[:1]:
+                diffs.append(f"node {n}: {d}: the window entry is not one message")
         limit = user_steps if n == spec["supervisor"] else 10 ** 9
         for f in NODE_FIELDS + ["rng"]:
             if f in ra and f in rb:
